@@ -5,6 +5,8 @@ package main
 // spec/Trace_History.tla and spec/Trace_Fault.tla.
 
 import (
+	"time"
+
 	"crypto/sha1"
 	"fmt"
 	"math/rand"
@@ -27,7 +29,13 @@ var histHosts = []string{"example.org", "sub.example.org", "ads.example.net", "t
 
 func rndListLine(rnd *rand.Rand) string {
 	h := histHosts[rnd.Intn(len(histHosts))]
-	switch rnd.Intn(22) {
+	switch rnd.Intn(25) {
+	case 22:
+		return "||" + h + "/Ads/*$match-case"
+	case 23:
+		return "||" + h + "/Ads/*"
+	case 24:
+		return "/Ads/banner$match-case,script"
 	case 0:
 		return "||" + h + "^"
 	case 1:
@@ -113,7 +121,8 @@ func rndHistQuery(rnd *rand.Rand) *histQuery {
 		q.tags = [][]string{nil, {"t1"}, {"t1", "t2"}, {"t3"}}[rnd.Intn(4)]
 	case 2:
 		q.kind = []string{"web", "net"}[rnd.Intn(2)]
-		q.url = []string{"http://", "https://"}[rnd.Intn(2)] + h + []string{"/", "/ads/banner.js", "/ads12/x.png", "/index.html"}[rnd.Intn(4)]
+		q.url = []string{"http://", "https://"}[rnd.Intn(2)] + h + []string{"/", "/ads/banner.js", "/ads12/x.png", "/index.html", "/Ads/banner.js", "/ADS/BANNER.JS",
+			"/redirect?to=" + h + "&again=" + h}[rnd.Intn(7)]
 		if rnd.Intn(3) != 0 {
 			q.src = "https://" + histHosts[rnd.Intn(len(histHosts))] + "/"
 		}
@@ -353,9 +362,21 @@ func cmdDriveHistory(args []string) error {
 		}
 		var results []kept
 		fresh := map[string]bool{}
+		// the first queries walk the hosts of the list lines in file order, on the cold cache
+		var inOrder []*histQuery
+		for _, ln := range lines {
+			for _, h := range histHosts {
+				if strings.Contains(ln, h) && !strings.Contains(ln, "."+h) {
+					inOrder = append(inOrder, &histQuery{kind: "dnsmatch", host: h})
+					break
+				}
+			}
+		}
 		for i := 0; i < hl; i++ {
 			var q *histQuery
-			if hr.Intn(3) == 0 {
+			if i < len(inOrder) && i < hl/4 {
+				q = inOrder[i]
+			} else if hr.Intn(3) == 0 {
 				q = rndHistQuery(hr)
 			} else {
 				q = pool[hr.Intn(len(pool))]
@@ -461,6 +482,13 @@ func cmdDriveFault(args []string) error {
 		for i := 0; i < 15+hr.Intn(40); i++ {
 			lines = append(lines, rndListLine(hr))
 		}
+		bulk := hnum%8 == 6
+		if bulk {
+			// more rules than any bounded cache would hold: every one is materialised before the fault and asked for again after it
+			for i := 0; i < 5000; i++ {
+				lines = append(lines, fmt.Sprintf("0.0.0.0 bulk%04d.example", i))
+			}
+		}
 		ls := hr.Int63()
 		st, cleanup, err := makeHistStorage(rand.New(rand.NewSource(ls)), lines, m["dir"], true)
 		if err != nil {
@@ -486,7 +514,12 @@ func cmdDriveFault(args []string) error {
 		}
 		faultAt := hr.Intn(hl + 1)
 		kind := []string{"close", "closed-fd"}[hr.Intn(2)]
-		for i := 0; i < hl; i++ {
+		total := hl
+		if bulk {
+			faultAt, total = 5000, 10000
+		}
+		hung := false
+		for i := 0; i < total && !hung; i++ {
 			if i == faultAt {
 				pv := safeCall(func() {
 					if kind == "close" {
@@ -508,7 +541,9 @@ func cmdDriveFault(args []string) error {
 				out.write(map[string]any{"ev": "fault", "q": "", "got": []string{}, "gotnet": []string{}, "twin": []string{}, "twinnet": []string{}, "ref": []string{}, "kind": kind + pv, "h": hnum})
 			}
 			var q *histQuery
-			if hr.Intn(4) == 0 {
+			if bulk {
+				q = &histQuery{kind: "dnsmatch", host: fmt.Sprintf("bulk%04d.example", i%5000)}
+			} else if hr.Intn(4) == 0 {
 				q = rndHistQuery(hr)
 			} else {
 				q = pool[hr.Intn(len(pool))]
@@ -516,7 +551,24 @@ func cmdDriveFault(args []string) error {
 			if q.kind == "cos" || q.kind == "web" {
 				q = &histQuery{kind: "net", host: q.host, url: "https://" + q.host + "/ads/banner.js", src: q.src, typ: rules.TypeScript}
 			}
-			_, _, got, gotnet, pv := eng.run2(q)
+			// a query on the faulted engine that does not come back is as bad as a crash: watchdog
+			type ans struct {
+				got, gotnet []string
+				pv          string
+			}
+			done := make(chan ans, 1)
+			go func() {
+				_, _, g, gn, p := eng.run2(q)
+				done <- ans{g, gn, p}
+			}()
+			var got, gotnet []string
+			var pv string
+			select {
+			case a := <-done:
+				got, gotnet, pv = a.got, a.gotnet, a.pv
+			case <-time.After(8 * time.Second):
+				pv, hung = "the query did not return within 8 s (deadlock)", true
+			}
 			_, _, twinAll, twinnet, _ := twin.run2(q)
 			ref := trulyMatching(parsed, q)
 			if pv != "" {
